@@ -183,6 +183,12 @@ def popD (d : Dict κ ν) (k : κ) (dflt : ν) : ν × Dict κ ν :=
   | some v => (v, erase d k)
   | none => (dflt, d)
 
+/-- `d.popitem()`: the LAST item (LIFO) and the remaining dict, `KeyError` when empty -/
+def popitem? (d : Dict κ ν) : Except PyExc ((κ × ν) × Dict κ ν) :=
+  match d.getLast? with
+  | some p => .ok (p, d.dropLast)
+  | none => .error PyExc.KeyError
+
 /-- `d.setdefault(k, dflt)`: (the value now stored for `k`, the dict) -/
 def setdefault (d : Dict κ ν) (k : κ) (dflt : ν) : ν × Dict κ ν :=
   match find d k with
